@@ -23,6 +23,10 @@ def occupancy_writers(ctx: Ctx, path: str):
 
 def check(ctx: Ctx) -> None:
     rep = ctx.rep
+    # "never more than pool_size ... and as many as pool_size when there is demand": a slot is lost for good when a task is forgotten
+    # while it still runs (its ending finds it in no registry and raises before the release) - the close forgets only what it waited for
+    from . import close as _CL
+    _CL.r_forget_only_gathered(ctx, "R15.10")
     rep.rule("R15.1", "the pool_size getter is configuration-only: every access path it reads may be written only by __init__ / the setter. "
                       "Returning exactly an occupancy-dependent path (the semaphore counter, moved by acquire/release on the task start/end "
                       "paths) is a violation; mixed arithmetic is inconclusive")
